@@ -337,17 +337,20 @@ Section C13State.
       rewrite forallb_forall in Hn. apply Hn in Hi. discriminate.
   Qed.
 
-  Lemma CS_removal : forall stp st0 r d, RG stp -> CS stp -> RM stp st0 r -> forallb noleft d = true ->
+  Lemma CS_removal : forall st stp st0 r d, CS st -> RM stp st0 r -> forallb noleft d = true ->
+    reg stp = reg st -> byid stp = byid st -> allsubs stp = allsubs st -> shut stp = shut st ->
+    (forall x, In (GLeft x) (log stp) -> In (GLeft x) (log st) \/ (In x (allsubs st) /\ ~ In x (byid st0))) ->
     CS (st_log st0 d).
   Proof.
-    intros stp st0 r d HR HC HM Hd. destruct (rm_frame _ _ _ HM) as (_ & _ & Ha & Hs & _). constructor; simpl.
-    - rewrite Hs. intros E. destruct (cs_shut _ HC E) as [E1 E2]. rewrite (rm_reg _ _ _ HM), (rm_byid _ _ _ HM), E1, E2. auto.
-    - intros s Hi. rewrite Ha, (rm_byid _ _ _ HM).
+    intros st stp st0 r d HC HM Hd Er Eb Ea Es Hnew. destruct (rm_frame _ _ _ HM) as (_ & _ & Ha & Hs & _). constructor; simpl.
+    - rewrite Hs, Es. intros E. destruct (cs_shut _ HC E) as [E1 E2]. rewrite (rm_reg _ _ _ HM), (rm_byid _ _ _ HM), Er, Eb, E1, E2. auto.
+    - intros s Hi. rewrite Ha, Ea.
       assert (Hi' : In (GLeft s) (log stp)).
       { apply in_app_iff in Hi. destruct Hi as [Hi|Hi]; [rewrite forallb_forall in Hd; apply Hd in Hi; discriminate|].
         rewrite (rm_log _ _ _ HM) in Hi. apply in_app_iff in Hi. destruct Hi as [Hi|Hi]; auto.
         apply in_map_iff in Hi. destruct Hi as [x [Hx _]]. discriminate. }
-      destruct (cs_left _ HC s Hi'). split; auto. intro Hx. apply filter_In in Hx. tauto.
+      destruct (Hnew s Hi') as [Ho|[A B]]; [|auto].
+      destruct (cs_left _ HC s Ho). split; auto. rewrite (rm_byid _ _ _ HM), Eb. intro Hx. apply filter_In in Hx. tauto.
   Qed.
 
   Lemma noleft_dec : forall r, forallb noleft (rev (dec_obs r)) = true.
@@ -365,6 +368,298 @@ Section C13State.
                   | simpl; reflexivity ]
            |try reflexivity
            |simpl; auto|simpl; auto|simpl; auto|simpl; auto]; fail).
-    Show.
-  Admitted.
+    (* addSubscription *)
+    1-4: (assert (Hf : ~ In s (allsubs st)) by (apply mem_nIn; auto); destruct HC; constructor; simpl;
+          [discriminate
+          |intros s' [Hx|[Hx|Hi]]; try discriminate; destruct (cs_left0 s' Hi) as [A B]; split; [right; auto|];
+           intro Hy; apply in_app_iff in Hy; destruct Hy as [Hy|[<-|[]]]; tauto]).
+    - (* UnsubscribeSubscription *)
+      assert (HR0 : RG (st_log st (if mem s (allsubs st) then [GLeft s] else []))) by (eapply RG_ext; [|exact HR]; reg_eq_tac).
+      eapply (CS_removal st); [exact HC|eapply RM_remove_locked; [exact HR0|exact Erm]|apply noleft_dec|reflexivity|reflexivity|reflexivity|reflexivity|].
+      intros x Hi. simpl in Hi. apply in_app_iff in Hi. destruct Hi as [Hi|Hi]; auto. right.
+      destruct (mem s (allsubs st)) eqn:E; simpl in Hi; [|tauto]. destruct Hi as [Hi|[]]. inversion Hi; subst.
+      split; [apply mem_In; auto|eapply remove_locked_gone; eauto].
+    - (* removeClient *)
+      assert (HR0 : RG (st_log st (map GLeft (of_conn st c (allsubs st))))) by (eapply RG_ext; [|exact HR]; reg_eq_tac).
+      eapply (CS_removal st); [exact HC|eapply RM_remove_many; [exact HR0|exact Erm]|apply noleft_dec|reflexivity|reflexivity|reflexivity|reflexivity|].
+      intros x Hi. simpl in Hi. apply in_app_iff in Hi. destruct Hi as [Hi|Hi]; auto. right.
+      apply in_map_iff in Hi. destruct Hi as [y [Hy Hi]]. inversion Hy; subst. unfold of_conn in Hi. apply filter_In in Hi. destruct Hi as [Hi Hc].
+      split; auto. intro Hb.
+      assert (In x (byid st)).
+      { pose proof (RM_remove_many _ _ _ _ HR0 Erm) as HM. rewrite (rm_byid _ _ _ HM) in Hb. apply filter_In in Hb. apply Hb. }
+      eapply (remove_many_gone _ _ _ _ HR0 Erm x); auto. unfold of_conn. apply filter_In. auto.
+    - (* shutdownResolver *)
+      constructor; simpl; auto.
+      intros s Hi.
+      assert (HR0 : RG (st_flags st true (rctx st))) by (eapply RG_ext; [|exact HR]; reg_eq_tac).
+      assert (HM : RM (st_flags st true (rctx st)) st0 r).
+      { eapply RM_detach_many; [exact HR0| | |exact Erm]; simpl; auto.
+        apply (NoDup_tids (fun t => t_key (trigs st t))); [apply (rg_keys _ HR)|]. intros k t Hx. apply (rg_ent _ HR _ _ Hx). }
+      destruct (rm_frame _ _ _ HM) as (_ & _ & Ha & _). rewrite Ha. simpl. split; [|tauto].
+      apply in_app_iff in Hi. destruct Hi as [Hi|Hi].
+      + pose proof (noleft_dec r) as Hn. rewrite forallb_forall in Hn. apply Hn in Hi. discriminate.
+      + rewrite (rm_log _ _ _ HM) in Hi. apply in_app_iff in Hi. destruct Hi as [Hi|Hi].
+        * apply in_map_iff in Hi. destruct Hi as [y [Hy _]]. discriminate.
+        * apply (cs_left _ HC s Hi).
+    - (* doneTriggerFromUpdater *)
+      assert (Hr : In (t_key (trigs st t0), t0) (reg st)).
+      { destruct (fix_c v).
+        - destruct (is_reg st t) eqn:E; inversion Ec; subst. apply is_reg_true; auto.
+        - apply lookup_reg_In in Ec. destruct (rg_ent _ HR _ _ Ec) as (_ & B & _). rewrite B. exact Ec. }
+      eapply (CS_removal st st); [exact HC|eapply RM_detach_locked; eauto|apply noleft_dec|reflexivity|reflexivity|reflexivity|reflexivity|auto].
+    - eapply CS_quiet; [exact HC|simpl; reflexivity| |simpl; auto|simpl; auto|simpl; auto|simpl; auto].
+      apply forallb_forall. intros o Ho. apply in_map_iff in Ho. destruct Ho as [y [<- _]]. reflexivity.
+  Qed.
 End C13State.
+
+(* ---- thread-based invariants ---- *)
+Definition pi (t : tid) (i : instr) : bool :=
+  match i with IHookS _ t' | IStart _ t' | IInit t' | IInitOldStore t' => t' =? t | _ => false end.
+Definition ps (t : tid) (i : instr) : bool :=
+  match i with IHookS _ t' | IStart _ t' => t' =? t | _ => false end.
+Definition is_cancel (t : tid) (i : instr) : bool := match i with ICancel t' => t' =? t | _ => false end.
+Definition is_doner (t : tid) (i : instr) : bool := match i with IDoneR t' => t' =? t | _ => false end.
+Definition is_initold (i : instr) : bool := match i with IInitOldStore _ => true | _ => false end.
+(* instructions that carry a trigger instance and can lead to GEnd / IDoneR / IInit for it *)
+Definition gsrc (t : tid) (i : instr) : bool :=
+  match i with
+  | IHookJ _ t' | IHookS _ t' | IStart _ t' | IFailSnap t' | IULock t' _ | IDoneR t' | IInit t' | IInitOldStore t' => t' =? t
+  | _ => false
+  end.
+Definition is_ostart (t : tid) (o : obs) : bool := match o with OStart t' _ => t' =? t | _ => false end.
+Definition nstart (t : tid) (l : list obs) : nat := length (filter (is_ostart t) l).
+Definition B (b : bool) : nat := if b then 1 else 0.
+Definition registered (st : state) (t : tid) : Prop := In (t_key (trigs st t), t) (reg st).
+
+Record CB (st : state) : Prop := {
+  cb_pi : forall t, cnt (pi t) (threads st) + B (t_init (trigs st t)) <= 1;
+  cb_ps : forall t, cnt (ps t) (threads st) + t_started (trigs st t) <= 1;
+  cb_nstart : forall t, nstart t (log st) = t_started (trigs st t);
+  cb_fresh : forall t, ntrig st <= t ->
+               cnt (gsrc t) (threads st) = 0 /\ t_init (trigs st t) = false /\ t_started (trigs st t) = 0;
+  cb_old : cnt is_initold (threads st) = 0;
+  cb_cancel : forall t, t < ntrig st -> registered st t \/ t_cancelled (trigs st t) = true \/ cnt (is_cancel t) (threads st) > 0;
+  cb_end : forall t, In (GEnd t) (log st) -> t < ntrig st /\ (~ registered st t \/ cnt (is_doner t) (threads st) > 0) }.
+
+Lemma cntl_cancel_map : forall t l, NoDup l -> cntl (is_cancel t) (map ICancel l) = if mem t l then 1 else 0.
+Proof.
+  unfold cntl; induction l; simpl; intros; auto. inversion H; subst. rewrite (Nat.eqb_sym t a).
+  destruct (Nat.eqb_spec a t); simpl.
+  - subst. rewrite IHl by auto. rewrite (proj2 (mem_nIn t l)); auto.
+  - apply IHl; auto.
+Qed.
+Lemma cntl_after_remove_cancel : forall t r, NoDup (rr_cancel r) ->
+  cntl (is_cancel t) (after_remove r) = if mem t (rr_cancel r) then 1 else 0.
+Proof. intros. unfold after_remove. rewrite cntl_app, cntl_cancel_map by auto. rewrite cntl_map_zero by auto. lia. Qed.
+Lemma cntl_after_remove_zero : forall p r, (forall s, p (IClose s) = false) -> (forall t, p (ICancel t) = false) ->
+  cntl p (after_remove r) = 0.
+Proof. intros. unfold after_remove. rewrite cntl_app, !cntl_map_zero by auto. auto. Qed.
+
+Lemma registered_RM : forall stp st0 r t, RM stp st0 r ->
+  (registered st0 t <-> registered stp t /\ ~ In t (rr_cancel r)).
+Proof.
+  intros. unfold registered. destruct (rm_tother _ _ _ H t) as (-> & _). rewrite (rm_reg _ _ _ H), filter_In. simpl.
+  rewrite nin_true. tauto.
+Qed.
+
+Definition CBp (st : state) (thr : list (tname * list instr)) : Prop :=
+  (forall t, cnt (pi t) thr + B (t_init (trigs st t)) <= 1) /\
+  (forall t, cnt (ps t) thr + t_started (trigs st t) <= 1) /\
+  (forall t, nstart t (log st) = t_started (trigs st t)) /\
+  (forall t, ntrig st <= t -> cnt (gsrc t) thr = 0 /\ t_init (trigs st t) = false /\ t_started (trigs st t) = 0) /\
+  cnt is_initold thr = 0 /\
+  (forall t, t < ntrig st -> registered st t \/ t_cancelled (trigs st t) = true \/ cnt (is_cancel t) thr > 0) /\
+  (forall t, In (GEnd t) (log st) -> t < ntrig st /\ (~ registered st t \/ cnt (is_doner t) thr > 0)).
+
+Lemma CB_CBp : forall st, CB st <-> CBp st (threads st).
+Proof.
+  intros; split.
+  - intros []. unfold CBp. repeat split; auto; try apply cb_fresh0; auto; apply cb_end0; auto.
+  - intros (A & B0 & C & D & E & F & G). constructor; auto.
+Qed.
+
+Ltac hq HQ p :=
+  let H := fresh "Hq" in pose proof (HQ p) as H; revert H; cnt_simpl; intro H.
+
+Ltac eqb_all :=
+  repeat (match goal with
+          | |- context [Nat.eqb ?a ?b] => destruct (Nat.eqb_spec a b); subst
+          | H : context [Nat.eqb ?a ?b] |- _ => destruct (Nat.eqb_spec a b); subst
+          end); simpl in *.
+
+Definition plain (o : obs) : bool := match o with OStart _ _ | GEnd _ => false | _ => true end.
+Lemma nstart_plain : forall t a l, forallb plain a = true -> nstart t (a ++ l) = nstart t l.
+Proof.
+  unfold nstart; intros. rewrite filter_app, app_length.
+  assert (filter (is_ostart t) a = []).
+  { induction a; simpl in *; auto. apply andb_true_iff in H. destruct H. destruct a; simpl in *; auto; discriminate. }
+  rewrite H0. auto.
+Qed.
+Lemma In_GEnd_plain : forall t a l, forallb plain a = true -> In (GEnd t) (a ++ l) -> In (GEnd t) l.
+Proof.
+  intros. apply in_app_iff in H0. destruct H0; auto. rewrite forallb_forall in H. apply H in H0. discriminate.
+Qed.
+Lemma plain_map : forall A (f : A -> obs) l, (forall x, plain (f x) = true) -> forallb plain (map f l) = true.
+Proof. induction l; simpl; intros; auto. rewrite H, IHl; auto. Qed.
+Lemma plain_dec : forall r, forallb plain (rev (dec_obs r)) = true.
+Proof. intros. unfold dec_obs. destruct (rr_dec r =? 0); reflexivity. Qed.
+
+Lemma CBp_removal : forall st stp st0 r d i thr',
+  CB st -> RM stp st0 r ->
+  reg stp = reg st -> trigs stp = trigs st -> ntrig stp = ntrig st ->
+  (exists a, log stp = a ++ log st /\ forallb plain a = true) ->
+  forallb plain d = true ->
+  (forall p, cnt p thr' + (if p i then 1 else 0) = cnt p (threads st) + cntl p (after_remove r) + 0) ->
+  (forall t, pi t i = false) -> (forall t, ps t i = false) -> is_initold i = false -> (forall t, is_cancel t i = false) ->
+  (forall t, gsrc t i = is_doner t i) ->
+  (forall t, is_doner t i = true -> ~ registered st0 t) ->
+  CBp (st_log st0 d) thr'.
+Proof.
+  intros st stp st0 r d i thr' HC HM Er Et En [a [Ea Hpa]] Hd HQ Hpi Hps Hold Hcan Hg Hdone.
+  destruct (rm_frame _ _ _ HM) as (_ & Hn & _).
+  assert (Hz : forall p, (forall s, p (IClose s) = false) -> (forall t, p (ICancel t) = false) -> cnt p thr' + (if p i then 1 else 0) = cnt p (threads st)).
+  { intros p H1 H2. rewrite (HQ p), cntl_after_remove_zero by auto. lia. }
+  assert (Hti : forall t, t_init (trigs st0 t) = t_init (trigs st t) /\ t_started (trigs st0 t) = t_started (trigs st t) /\
+                         t_cancelled (trigs st0 t) = t_cancelled (trigs st t)).
+  { intros t. destruct (rm_tother _ _ _ HM t) as (_ & A & B0 & _ & _ & _ & C). rewrite Et in *. auto. }
+  assert (Hreg : forall t, registered st0 t <-> registered st t /\ ~ In t (rr_cancel r)).
+  { intros t. rewrite (registered_RM _ _ _ t HM). unfold registered. rewrite Er, Et. tauto. }
+  assert (Hregd : forall t, registered (st_log st0 d) t <-> registered st0 t) by (intros; unfold registered; simpl; tauto).
+  unfold CBp; cbn [trigs log ntrig st_log]. repeat split.
+  - intros t. destruct (Hti t) as (-> & _). pose proof (Hz (pi t) (fun _ => eq_refl) (fun _ => eq_refl)). rewrite Hpi in H. pose proof (cb_pi _ HC t). lia.
+  - intros t. destruct (Hti t) as (_ & -> & _). pose proof (Hz (ps t) (fun _ => eq_refl) (fun _ => eq_refl)). rewrite Hps in H. pose proof (cb_ps _ HC t). lia.
+  - intros t. destruct (Hti t) as (_ & -> & _). rewrite nstart_plain by auto. rewrite (rm_log _ _ _ HM), nstart_plain by (apply plain_map; auto).
+    rewrite Ea, nstart_plain by auto. apply (cb_nstart _ HC).
+  - rewrite Hn, En in H. destruct (cb_fresh _ HC t H) as (F1 & _). pose proof (Hz (gsrc t) (fun _ => eq_refl) (fun _ => eq_refl)). lia.
+  - rewrite Hn, En in H. destruct (Hti t) as (-> & _). apply (cb_fresh _ HC t H).
+  - rewrite Hn, En in H. destruct (Hti t) as (_ & -> & _). apply (cb_fresh _ HC t H).
+  - pose proof (Hz is_initold (fun _ => eq_refl) (fun _ => eq_refl)). rewrite Hold in H. pose proof (cb_old _ HC). lia.
+  - intros t Ht. rewrite Hn, En in Ht. destruct (Hti t) as (_ & _ & ->).
+    pose proof (HQ (is_cancel t)) as Hc. rewrite Hcan, cntl_after_remove_cancel in Hc by apply (rm_cancel_nd _ _ _ HM).
+    destruct (cb_cancel _ HC t Ht) as [F|[F|F]]; auto.
+    + destruct (mem t (rr_cancel r)) eqn:E.
+      * right. right. lia.
+      * left. apply Hregd. apply Hreg. split; auto. apply mem_nIn; auto.
+    + right. right. lia.
+  - apply In_GEnd_plain in H; auto. rewrite (rm_log _ _ _ HM) in H. apply In_GEnd_plain in H; [|apply plain_map; auto].
+    rewrite Ea in H. apply In_GEnd_plain in H; auto. rewrite Hn, En. apply (cb_end _ HC t H).
+  - apply In_GEnd_plain in H; auto. rewrite (rm_log _ _ _ HM) in H. apply In_GEnd_plain in H; [|apply plain_map; auto].
+    rewrite Ea in H. apply In_GEnd_plain in H; auto. destruct (cb_end _ HC t H) as [_ [F|F]].
+    + left. rewrite Hregd, Hreg. tauto.
+    + pose proof (Hz (is_doner t) (fun _ => eq_refl) (fun _ => eq_refl)) as Hc.
+      destruct (is_doner t i) eqn:E; [left; rewrite Hregd; apply Hdone; auto|right; lia].
+Qed.
+
+Lemma cnt_le : forall (p q : instr -> bool) thr, (forall i, p i = true -> q i = true) -> cnt p thr <= cnt q thr.
+Proof.
+  intros p q thr H. induction thr as [|[n prog] thr]; simpl; auto.
+  assert (cntl p prog <= cntl q prog).
+  { unfold cntl. induction prog; simpl; auto. destruct (p a) eqn:E; [rewrite (H _ E); simpl; lia|destruct (q a); simpl; lia]. }
+  lia.
+Qed.
+
+Lemma CBp_ext : forall st st' thr, trigs st' = trigs st -> log st' = log st -> ntrig st' = ntrig st ->
+  (forall t, registered st' t <-> registered st t) -> CBp st thr -> CBp st' thr.
+Proof.
+  intros st st' thr Ht Hl Hn Hr (A & B0 & C & D & E & F & G). unfold CBp. rewrite Ht, Hl, Hn.
+  repeat split; auto; try apply D; auto.
+  - intros t Hlt. destruct (F t Hlt) as [X|X]; auto. left. apply Hr; auto.
+  - apply G; auto.
+  - destruct (G t H) as [_ [X|X]]; auto. left. rewrite Hr. auto.
+Qed.
+
+Lemma shutdown_empty : forall st rc st0 r, RG st ->
+  detach_many (st_flags st true rc) (map snd (reg st)) = (st0, r) -> reg st0 = [] /\ byid st0 = [].
+Proof.
+  intros st rc st0 r HR Erm.
+  assert (HR0 : RG (st_flags st true rc)) by (eapply RG_ext; [|exact HR]; reg_eq_tac).
+  pose proof (RG_detach_many _ _ _ _ HR0 (fun t Ht => Ht)
+               (NoDup_tids (fun t => t_key (trigs st t)) _ (rg_keys _ HR) (fun k t Hi => proj1 (proj2 (rg_ent _ HR _ _ Hi)))) Erm) as [HR1 Hsub].
+  assert (Hreg : reg st0 = []).
+  { destruct (reg st0) as [|[k t] l] eqn:E; auto. exfalso.
+    destruct (Hsub k t (or_introl eq_refl)) as [Hi Hn]. apply Hn. simpl in Hi. apply in_map_iff. exists (k, t); auto. }
+  split; auto.
+  destruct (byid st0) as [|x l] eqn:E; auto. exfalso.
+  destruct (rg_byid _ HR1 x) as (_ & Hi & _); [rewrite E; left; auto|]. rewrite Hreg in Hi. inversion Hi.
+Qed.
+
+Section C13Thr.
+  Variable v : variant.
+  Variable flt : sid -> ev -> fres.
+  Variable wresf : sid -> ev -> wres.
+  Variable ev_bad : ev -> bool.
+  Variable hbfail : sid -> bool.
+  Notation exec := (exec v flt wresf ev_bad hbfail).
+  Notation step := (step v flt wresf ev_bad hbfail).
+  Hypothesis Hfb : fix_b v = true.
+  Hypothesis Hfc : fix_c v = true.
+
+  Lemma CB_astep : forall st i x st1 push sp thr',
+    RG st -> CB st -> exec st i x = Some (st1, push, sp) ->
+    (forall p, cnt p thr' + (if p i then 1 else 0) = cnt p (threads st) + cntl p push + cnt p sp) ->
+    (forall p, p i = true -> cnt p (threads st) > 0) ->
+    CBp st1 thr'.
+  Proof.
+    intros st i x st1 push sp thr' HR HC He HQ HI.
+    assert (Hlt : forall t, gsrc t i = true -> t < ntrig st).
+    { intros t Hg. destruct (le_lt_dec (ntrig st) t) as [Hle|]; auto. exfalso.
+      destruct (cb_fresh _ HC t Hle) as [F _]. specialize (HI _ Hg). lia. }
+    exec_cases He; try congruence; simpl in Hlt;
+      repeat match goal with Hlt : forall t, (?a =? t) = true -> _ |- _ => pose proof (Hlt a (Nat.eqb_refl a)); clear Hlt end.
+    (* the removal regions *)
+    all: try (match goal with
+         | HC : CB ?S, HR : RG ?S, E : remove_locked (st_log ?S (if mem ?s _ then _ else _)) ?s = (?st0, ?r) |- _ =>
+           eapply (CBp_removal S (st_log S (if mem s (allsubs S) then [GLeft s] else [])));
+           [exact HC|eapply RM_remove_locked; [eapply RG_ext; [|exact HR]; reg_eq_tac|exact E]|reflexivity|reflexivity|reflexivity
+           |eexists; split; [reflexivity|destruct (mem s (allsubs S)); reflexivity]
+           |apply plain_dec|intros p; rewrite (HQ p); simpl; lia|reflexivity|reflexivity|reflexivity|reflexivity|reflexivity|discriminate]
+         | HC : CB ?S, HR : RG ?S, E : remove_many (st_log ?S (map GLeft (of_conn ?S ?c _))) _ = (?st0, ?r) |- _ =>
+           eapply (CBp_removal S (st_log S (map GLeft (of_conn S c (allsubs S)))));
+           [exact HC|eapply RM_remove_many; [eapply RG_ext; [|exact HR]; reg_eq_tac|exact E]|reflexivity|reflexivity|reflexivity
+           |eexists; split; [reflexivity|apply plain_map; auto]
+           |apply plain_dec|intros p; rewrite (HQ p); simpl; lia|reflexivity|reflexivity|reflexivity|reflexivity|reflexivity|discriminate]
+         | HC : CB ?S, HR : RG ?S, E : detach_many (st_flags ?S true _) _ = (?st0, ?r) |- _ =>
+           let E1 := fresh "E1" in let E2 := fresh "E2" in
+           destruct (shutdown_empty _ _ _ _ HR E) as [E1 E2];
+           eapply (CBp_ext (emit st0 (dec_obs r))); [reflexivity|reflexivity|reflexivity|intros t; unfold registered; simpl; rewrite E1; tauto|];
+           eapply (CBp_removal S (st_flags S true (rctx S)));
+           [exact HC| |reflexivity|reflexivity|reflexivity
+           |exists []; split; reflexivity
+           |apply plain_dec|intros p; rewrite (HQ p); simpl; lia|reflexivity|reflexivity|reflexivity|reflexivity|reflexivity|discriminate];
+           eapply RM_detach_many; [eapply RG_ext; [|exact HR]; reg_eq_tac| | |exact E]; simpl; auto;
+           apply (NoDup_tids (fun t => t_key (trigs S t))); [apply (rg_keys _ HR)|]; intros k t Hi; apply (rg_ent _ HR _ _ Hi)
+         end; fail).
+    all: lazymatch goal with
+         | HC : CB ?S, HR : RG ?S, E : detach_many (st_flags ?S true _) _ = (?st0, ?r) |- _ =>
+           let E1 := fresh "E1" in let E2 := fresh "E2" in
+           destruct (shutdown_empty _ _ _ _ HR E) as [E1 E2];
+           eapply (CBp_ext (emit st0 (dec_obs r))); [reflexivity|reflexivity|reflexivity|intros t; unfold registered; simpl; rewrite E1; tauto|];
+           eapply (CBp_removal S (st_flags S true (rctx S)));
+           [exact HC| |reflexivity|reflexivity|reflexivity
+           |exists []; split; reflexivity
+           |apply plain_dec|intros p; rewrite (HQ p); simpl; lia|reflexivity|reflexivity|reflexivity|reflexivity|reflexivity|discriminate]
+         | _ => idtac
+         end.
+    all: unfold CBp.
+    all: repeat match goal with |- _ /\ _ => split end.
+    all: try (solve [intros t0; hq HQ (pi t0); pose proof (cb_pi _ HC t0); unfold B in *; simpl; unfold upd; eqb_all; lia]).
+    all: try (solve [intros t0; hq HQ (ps t0); pose proof (cb_ps _ HC t0); simpl; unfold upd; eqb_all; lia]).
+    all: try (solve [intros t0; pose proof (cb_nstart _ HC t0); unfold nstart in *; simpl; unfold upd; eqb_all; auto; lia]).
+    all: try (solve [intros t0 Ht0; hq HQ (gsrc t0); destruct (cb_fresh _ HC t0 Ht0) as (F1 & F2 & F3); simpl in *; unfold upd; eqb_all; repeat split; auto; try lia]).
+    all: try (solve [hq HQ is_initold; pose proof (cb_old _ HC); lia]).
+    all: try (solve [intros t0 Ht0; hq HQ (is_cancel t0); destruct (cb_cancel _ HC t0 Ht0) as [F|[F|F]]; unfold registered in *; simpl; unfold upd; eqb_all; auto; right; right; lia]).
+    all: try (solve [intros t0 Ht0; simpl in Ht0; repeat (destruct Ht0 as [Hd|Ht0]; [discriminate Hd|]);
+        hq HQ (is_doner t0); destruct (cb_end _ HC t0 Ht0) as [F1 [F|F]]; unfold registered in *; simpl; unfold upd; eqb_all; split; auto; right; lia ]).
+    all: match goal with HI : forall p, p ?i = true -> _ |- ?g =>
+           match g with
+           | forall t, cnt (pi t) _ + _ <= 1 => idtac i "pi"
+           | forall t, cnt (ps t) _ + _ <= 1 => idtac i "ps"
+           | forall t, nstart t _ = _ => idtac i "nstart"
+           | forall t, _ <= t -> _ => idtac i "fresh"
+           | cnt is_initold _ = 0 => idtac i "old"
+           | forall t, t < _ -> _ => idtac i "cancel"
+           | forall t, In _ _ -> _ => idtac i "end"
+           | _ => idtac i "other"
+           end end.
+  Admitted.
+End C13Thr.
